@@ -322,6 +322,52 @@ PROPS["C10"] = dict(
     assumptions=["removals of non-directories always succeed (the harness runs as root)"],
 )
 
+PROPS["C07"] = dict(
+    level_text="The byte stream of -print0 / -print (starting point as given, '/'-joined names, one terminator per reached entry, nothing escaped) and "
+               "what xargs -0 delivers (each NUL-terminated string as exactly one argument, in order) are defined on the reference walk; TLC "
+               "enumerates directories with up to two entries whose names range over a class alphabet (letter, blank, newline, quotes, backslash, "
+               "'*', leading '-', a multi-byte character, '{}') x three spellings of the starting point, checks that splitting the stream gives "
+               "back the paths, and prints stream and argument list; the harness runs the real find binary, pipes its output into the real "
+               "xargs -0 with a recorder as the command and compares bytes and argv; random trees with 30 hostile name fragments validated by TLC.",
+    level_note="Trusted: TLC; the recorder; the pipe the harness sets up between the two binaries. Names are valid UTF-8 (the property's domain); "
+               "fidelity over all of Unicode is sampled, not enumerated.",
+    mc=[dict(module="mc/MC_Pipe.tla", cfg=dict(quick="mc/MC_Pipe_quick.cfg", thorough="mc/MC_Pipe_thorough.cfg"), workers=8)],
+    record=dict(quick=250, thorough=6000),
+    selftest=dict(quick=30, thorough=100),
+    trace=dict(module="trace/T_Pipe.tla", cfg="trace/T_Pipe.cfg"),
+    trace_chunk=300,
+    rule="MC: name1 in all strings up to LN symbols over 10 symbols, name2 larger or absent, as sibling or child, 3 spellings; "
+         "trace: random trees of 2-15 entries, names of 1-3 fragments from 30 hostile fragments (blanks only, newline, tab, quotes, $(id), -print0, "
+         "multi-byte incl. 4-byte), optional -type f / -mindepth 1 / -depth.",
+    exhaustive_note="bounded-exhaustive over the name alphabet",
+    assumptions=[],
+)
+
+PROPS["C06"] = dict(
+    level_text="When Linux accepts an execve() is a TLA+ module (KernelExec: per-string limit, bytes plus one pointer per string within "
+               "max(128 KiB, min(6 MiB, stack limit / 4)); the C library's ARG_MAX lacks the cap). TLC runs the batching loop of C04 with the "
+               "system budget the code derives (ARG_MAX - 2048 - environment) against that rule on scaled constants - every argument sequence up "
+               "to MAXARGS x stack limits below, at and above the cap x environment sizes - invariant: every command line handed to exec is "
+               "acceptable (the pre-repair cost model violates it within seconds: spec/mc/MC_C06_oldmodel.cfg). The classes TLC's counterexamples "
+               "name are run at real size on the real binary: 1..600 000 one-byte arguments, 4 KiB..128 KiB arguments, one argument over the "
+               "per-string limit, 5 000 environment variables, stack limits 512 KiB..unlimited, with -n/-s; a recorder in summary mode shows every "
+               "argument delivered once and in order (count + hash per invocation); TLC validates the runs, and direct execve probes near the "
+               "model's boundary calibrate the kernel model (a mismatch is a tool error, never a violation).",
+    level_note="Trusted: TLC; the recorder's summaries; the Linux rules as modelled - checked against the running kernel by the probes on every run.",
+    mc=[dict(module="mc/MC_C06.tla", cfg=dict(quick="mc/MC_C06_quick.cfg", thorough="mc/MC_C06_thorough.cfg"), workers=8)],
+    record=dict(quick=44, thorough=480),
+    selftest=dict(quick=10, thorough=40),
+    trace=dict(module="trace/T_C06.tla", cfg="trace/T_C06.cfg"),
+    trace_chunk=200,
+    calibration="is_probe",
+    jobs=4,
+    rule="MC: all argument sequences up to MAXARGS over lengths {1,2,7} x 6 stack limits x 3 environment sizes (scaled: pointer 4, ARGMIN 64, cap 96, "
+         "per-string 16, headroom 8); trace: 10 scenario families x environments x stack limits x {no option, -n 1000, -s 100000}; every fourth "
+         "record a direct execve probe.",
+    exhaustive_note="bounded-exhaustive at model level",
+    assumptions=["Linux execve limits (bprm_stack_limits, MAX_ARG_STRLEN); calibrated at run time"],
+)
+
 _WALK_NOTE = ("Trusted: TLC; the harness's materialisation of tree values (mkdir/symlink) and the in-process call of find_main with captured "
               "output. Unreadable directories cannot be produced as root in-process and are exercised by C11's fixture only. Link targets are "
               "non-links or dangling (no link-to-link chains).")
@@ -414,3 +460,8 @@ def m_H_delete_symlink_root(fail):
         if n and t[n - 1]["kind"] == "l" and t[n - 1]["target"] and t[t[n - 1]["target"] - 1]["kind"] == "d":
             return True
     return False
+
+
+def is_probe(fail):
+    """C06: a direct execve probe (calibration of the kernel model), not a run of xargs."""
+    return isinstance(fail.get("in"), dict) and fail["in"].get("mode") == "probe"
